@@ -260,6 +260,8 @@ mut("M124r", "conn.go", "				if c := b[i]; (c < ' ' && c != '\\t') || c == 0x7f 
 mut("M133", "conn.go", "			case 0x01 <= char && char <= 0x09 ||", "			case 0x01 <= char && char < 0x09 ||", ["C11"], "utf8-addr-xtext-hexpoints-vs-rfc6533", note="a well-formed \\x{09} is refused (operator mutant in a function behind a stub; bounded stand-in)")
 mut("M134", "conn.go", "			case 0x1000 <= char && char <= 0xD7FF:", "			case 0x1000 <= char || char <= 0xD7FF:", ["C11"], "utf8-addr-xtext-hexpoints-vs-rfc6533", note="surrogate hexpoints are accepted (operator mutant in a function behind a stub; bounded stand-in)")
 mut("M135", "conn.go", "	c.writeResponse(421, EnhancedCode{4, 4, 5}, \"Too busy. Try again later.\")\n	c.Close()", "	c.writeResponse(421, EnhancedCode{4, 4, 5}, \"Too busy. Try again later.\")", ["C08"], "a-rejected-connection-is-answered-421-and-given-up", note="Reject answers 421 but keeps the connection (operator mutant)")
+mut("P22r", "lengthlimit_reader.go", "		if err != nil {\n			r.err = err\n			return n, err\n		}", "		if err != nil {\n			return n, err\n		}", ["C02", "C19"], "a-failed-read-is-remembered", note="regression of fix dd5ea9d: a failed read of the connection is forgotten (message octets run as commands after a timeout)")
+mut("P22br", "lengthlimit_reader.go", "		if r.err != nil {\n			return 0, r.err\n		}\n", "", ["C02", "C19"], "after-a-failed-read-nothing-more-is-read-from-the-connection", note="regression of fix dd5ea9d: the remembered read error is not reported again")
 # ---------------------------------------------------------------- client.go
 mut("M124", "client.go", "		_, _, err := d.c.readResponse(250)\n		d.c.rcpts = nil\n		if err != nil {\n			return err\n		}", "		_, _, err := d.c.readResponse(250)\n		d.c.rcpts = nil\n		if err == nil {\n			return err\n		}", ["C16", "C17"], "close-returns-the-servers-verdict-on-the-message", note="the server's refusal of the message is swallowed by Close (operator mutant found by tools/automut.py)")
 mut("M125", "client.go", "		if err = c.Rcpt(addr, nil); err != nil {\n			return err\n		}\n	}\n	w, err := c.Data()", "		if err = c.Rcpt(addr, nil); err == nil {\n			return err\n		}\n	}\n	w, err := c.Data()", ["C16"], "success-means-the-message-was-written-and-its-writer-closed", note="SendMail reports success after the first accepted recipient without sending anything (operator mutant)")
@@ -271,6 +273,7 @@ mut("M130", "client.go", "	_, _, err := c.cmd(221, \"QUIT\")\n	if err != nil {\n
 mut("M131", "client.go", "	if err != nil {\n		c.greetError = err\n		c.text.Close()\n	}", "	if err != nil {\n		c.text.Close()\n	}", ["C15", "C17"], "a-refused-greeting-is-an-error", note="a refused greeting is reported as success (operator mutant)")
 mut("M136", "client.go", "	c := NewClient(conn)\n	c.lmtp = true\n	return c", "	c := NewClient(conn)\n	return c", ["C18"], "an-lmtp-client-speaks-lmtp", note="NewClientLMTP returns a plain SMTP client (operator mutant; the suite does not notice)")
 mut("M137", "data.go", "	return err.Code/100 == 4", "	return err.Code/100 != 4", ["C17"], "the-class-of-the-code-decides", note="Temporary() inverted (operator mutant)")
+mut("M138", "client.go", "		resp64 = make([]byte, encoding.EncodedLen(len(resp)))\n		encoding.Encode(resp64, resp)\n		code, msg64, err = c.cmd(0, string(resp64))", "		resp64 = make([]byte, encoding.EncodedLen(len(resp)))\n		code, msg64, err = c.cmd(0, string(resp64))", ["C09"], "auth-exchange-client-against-server", note="the client sends NUL octets instead of its mechanism's response (call-deletion mutant found by tools/automut.py --calls; bounded stand-in)")
 mut("M111", "client.go", "	if _, ok := c.ext[\"SIZE\"]; ok && opts != nil && opts.Size != 0 {", "	if _, ok := c.ext[\"SIZE\"]; ok && opts != nil && opts.Size > 1 {", ["C14"], "every-requested-and-offered-option-is-rendered", note="SIZE=1 is not rendered")
 mut("M104", "client.go", "		if resp == nil {\n			break\n		}\n		resp64 = make([]byte, encoding.EncodedLen(len(resp)))", "		if len(resp) == 0 {\n			break\n		}\n		resp64 = make([]byte, encoding.EncodedLen(len(resp)))", ["C09"], "success-means-the-server-said-235", note="client stops the AUTH exchange on an empty (non-nil) response and reports success")
 mut("M30", "client.go", "	if d.closed {\n		return fmt.Errorf(\"smtp: data writer closed twice\")\n	}\n	d.closed = true\n", "	if d.closed {\n		return fmt.Errorf(\"smtp: data writer closed twice\")\n	}\n", ["C16"], "always-closed-afterwards", note="dataCloser never marked closed (also regression of fix 755bba6)")
